@@ -49,7 +49,7 @@ CHECKS = [
           " Also: permissions outside validPerms and histories in which the verifier's answer for a token changes between requests to one handler value. Fourth round: token-less requests with form-encoded bodies (attached set, status, and the body the next handler reads; F24), permissioned methods without a leading context (F25).",
   "design_ref": "DESIGN.md §6 C19",
   "note": TB,
-  "technique": "Lean 4 theorems + translation theorems over the regenerated MiniGo programs (Auth, AuthHTTP) (decision logic stated outright) + exhaustive differential correspondence"},
+  "technique": "Lean 4 theorems + translation theorems over the regenerated MiniGo programs (Auth, AuthHTTP, WithPerm) (decision logic stated outright) + exhaustive differential correspondence"},
  {"property_id": "C10",
   "text": "Theorems over the frame executor modelled as a total function with explicit crash outcomes (every slice index and map-key "
           "hash is a possible crash): for every endpoint state and every frame a peer can send (control methods with any params, ids of "
